@@ -28,13 +28,13 @@ func init() {
 }
 
 var acquireFns = map[string]string{
-	"golang.org/x/sys/unix.InotifyInit1": "fd",
-	"golang.org/x/sys/unix.InotifyInit":  "fd",
-	"golang.org/x/sys/unix.Kqueue":       "fd",
-	"golang.org/x/sys/unix.Pipe":         "pipe",
-	"golang.org/x/sys/unix.Pipe2":        "pipe",
-	"golang.org/x/sys/unix.Open":         "fd",
-	"golang.org/x/sys/unix.NewEventPort": "fd",
+	"golang.org/x/sys/unix.InotifyInit1":              "fd",
+	"golang.org/x/sys/unix.InotifyInit":               "fd",
+	"golang.org/x/sys/unix.Kqueue":                    "fd",
+	"golang.org/x/sys/unix.Pipe":                      "pipe",
+	"golang.org/x/sys/unix.Pipe2":                     "pipe",
+	"golang.org/x/sys/unix.Open":                      "fd",
+	"golang.org/x/sys/unix.NewEventPort":              "fd",
 	"golang.org/x/sys/windows.CreateIoCompletionPort": "fd",
 }
 
